@@ -670,6 +670,18 @@ def cond_cases():
     out.append(['movl %eax, (%esi)', 'movb 3(%esi), %dl', 'cmpb 1(%esi), %dl', 'sete %cl'])
     out.append(['movl %eax, (%esi)', 'movw 2(%esi), %dx', 'xorw (%esi), %dx'])
     out.append(['movb %al, %dl', 'xorb %ah, %dl', 'bswap %eax', 'xorb %al, %dl', 'xorb %ah, %dl'])
+    # a stored value made of several parts (a register after a byte move into it, the flags image, a value loaded from partly
+    # written memory) whose low part is then overwritten by a narrower store, read back whole: the remainder spans several parts
+    for narrow in ('movb %cl, (%esi)', 'movw %cx, (%esi)'):
+        out.append(['movb %bl, %ah', 'movl %eax, (%esi)', narrow, 'movl (%esi), %edx'])
+        out.append(['movb %bl, %ah', 'movb %dl, %al', 'movl %eax, (%esi)', narrow, 'movl (%esi), %edx', 'movzwl (%esi), %edi'])
+        out.append(['movw %bx, %ax', 'movl %eax, (%esi)', narrow, 'movl (%esi), %edx'])
+        out.append(['movl %ebx, (%edi)', 'movb %cl, (%edi)', 'movl (%edi), %eax', 'movl %eax, (%esi)', narrow.replace('%c', '%d'), 'movl (%esi), %ebp'])
+        out.append(['sete %al', 'movb %bl, %ah', 'movl %eax, (%esi)', narrow, 'movl (%esi), %edx'])
+    out.append(['pushfl', 'movb %cl, (%esp)', 'popl %eax'])
+    out.append(['pushfl', 'movw %cx, (%esp)', 'popl %eax'])
+    out.append(['pushl %ebx', 'popfl', 'pushfl', 'movb %cl, (%esp)', 'popl %eax'])
+    out.append(['movb %bl, %ah', 'pushl %eax', 'movb %cl, (%esp)', 'popl %edx'])
     return out
 
 
